@@ -39,6 +39,10 @@ def regression():
                    Variant("Off", "unit", [], [DISABLED, ser("off")])], metas=[EM("aci")]),
         Item("E", []),
         Item("E", [Variant("Only", "tuple", [Field("String")], [DEFAULT])]),
+        # `V()` and `V {}` carry no data either: accepted without use_phf, so accepted with it
+        Item("E", [Variant("Unit", "unit"), Variant("Tuple", "tuple", []), Variant("Struct", "named", [], [ser("st"), aci(True, explicit=False)])]),
+        Item("E", [Variant("Tuple", "tuple", [], [ser("t"), ser("T2")]), Variant("Other", "named", [Field("String", "rest")], [DEFAULT]),
+                   Variant("Struct", "named", [])], metas=[EM("aci"), EM("sall", "kebab-case")]),
     ]
 
 
@@ -54,6 +58,12 @@ def overlapping():
                     va = Variant("First", "unit", [], [ser(x)] + ([aci(True, explicit=False)] if a else []))
                     vb = Variant("Second", "unit", [], [ser(y)] + ([aci(True, explicit=True)] if b else []))
                     out.append(Item("E", [va, vb]))
+                    # the same with `V()` / `V {}` shapes (no data, so use_phf accepts them): the shape must not change the bookkeeping
+                    for ka, kb in (("tuple", "unit"), ("unit", "named"), ("named", "tuple")):
+                        if (sp.index(x) + sp.index(y)) % 3 == ("tuple", "unit", "named").index(ka):
+                            va2, vb2 = copy.deepcopy(va), copy.deepcopy(vb)
+                            va2.kind, vb2.kind = ka, kb
+                            out.append(Item("E", [va2, vb2]))
     # spellings equal under UNICODE case mapping only (not under ASCII folding) are distinct keys and distinct guard arms
     for a, b in (("k", "\u212a"), ("é", "É"), ("ss", "ß"), ("s", "\u017f"), ("i", "\u0131"), ("ä-x", "Ä-X")):
         for x, y in ((a, b), (b, a)):
